@@ -401,19 +401,42 @@ def run(ck, m):
         for axis, mi, ri, ali, near_i, far_i in (("horizontal", 0, 0, 2, 0, 2), ("vertical", 1, 1, 3, 1, 3)):
             mn, rs, al = f"{A}[{mi}]", f"render_size[{ri}]", f"{A}[{ali}]"
             near, far = comp[near_i], comp[far_i]
-            bn = match_expr(f"$N if {mn} > {rs} else 0", near)
-            bf = match_expr(f"$F if {mn} > {rs} else 0", far)
+            # (the dataclass fields may be read through astuple(self) or by name; the test may be written in either polarity)
+            MIN_ = {mn, "self.width" if mi == 0 else "self.height"}
+            ALN_ = {al, "self.h_align" if mi == 0 else "self.v_align"}
+            def _amount(e_):
+                """{'N': amount} when e_ is `amount if <minimum> > <render size of this axis> else 0` in any spelling; 'AXIS' when it tests the other axis"""
+                if not (isinstance(e_, ast.IfExp) and isinstance(e_.test, ast.Compare) and len(e_.test.ops) == 1):
+                    return None
+                l_, r_, op_ = norm(e_.test.left), norm(e_.test.comparators[0]), type(e_.test.ops[0])
+                zero_b, zero_o = (isinstance(e_.body, ast.Constant) and e_.body.value == 0), (isinstance(e_.orelse, ast.Constant) and e_.orelse.value == 0)
+                other_rs = f"render_size[{1 - ri}]"
+                if {l_, r_} & MIN_ and other_rs in (l_, r_):
+                    return "AXIS"
+                pos = (l_ in MIN_ and r_ == rs and op_ is ast.Gt) or (l_ == rs and r_ in MIN_ and op_ is ast.Lt)
+                neg = (l_ in MIN_ and r_ == rs and op_ is ast.LtE) or (l_ == rs and r_ in MIN_ and op_ is ast.GtE)
+                if pos and zero_o:
+                    return {"N": e_.body}
+                if neg and zero_b:
+                    return {"N": e_.orelse}
+                return None
+            bn, bf = _amount(near), _amount(far)
+            if bn == "AXIS" or bf == "AXIS":
+                ck.ob("R4", rets[0], False, f"{axis}: the margin is decided by comparing the minimum {'width' if mi == 0 else 'height'} with the render's {'height' if mi == 0 else 'width'} "
+                      f"(`{norm((near if bn == 'AXIS' else far).test)[:70]}`): for a non-square render the padding is computed against the wrong axis", stmt=f"_get_exact_dimensions_[{axis}]: minimum compared with the same axis of the render size")
+                continue
+            bf = {"F": bf["N"]} if isinstance(bf, dict) else None
             ck.expect(bn is not None and bf is not None, f"_get_exact_dimensions_[{axis}]: margins are not `<amount> if <minimum> > <render size> else 0` (near `{norm(near)[:90]}`)")
             if bn is None or bf is None:
                 continue
             N, F = bn["N"], bf["F"]
             bb = match_expr("$pad * $n // $d", N)
-            ck.ob("R4", rets[0], bb is not None and norm(bb["n"]) == f"_ALIGN_RATIOS[{al}][0]" and norm(bb["d"]) == f"_ALIGN_RATIOS[{al}][1]",
+            ck.ob("R4", rets[0], bb is not None and any(norm(bb["n"]) == f"_ALIGN_RATIOS[{a_}][0]" and norm(bb["d"]) == f"_ALIGN_RATIOS[{a_}][1]" for a_ in ALN_),
                   f"{axis}: near margin must be pad * n // d with (n, d) = _ALIGN_RATIOS[<{'h' if mi == 0 else 'v'}_align>]; found `{norm(N)[:110]}`", stmt=f"_get_exact_dimensions_[{axis}]: near = pad*n//d, ratio row from alignment")
             if bb is None:
                 continue
             try:
-                okp = equal(bb["pad"], parse(f"{mn} - {rs}"))
+                okp = any(equal(bb["pad"], parse(f"{m_} - {rs}")) for m_ in MIN_)
             except NotPoly:
                 okp = False
             ck.ob("R4", rets[0], okp, f"{axis}: the amount to distribute must be <minimum> - <render size>; found `{norm(bb['pad'])[:80]}`", stmt=f"_get_exact_dimensions_[{axis}]: amount")
